@@ -706,6 +706,19 @@ int main(int argc, char **argv)
         finish();
         return 0;
     }
+    if (a.mode == "staleprobe") {
+        // manual probe, not part of the check: a rebind leaves the old full jid in the routing table; after the connection is
+        // gone the entry points to a deleted QXmppIncomingClient.  Does a stanza to that jid crash the server?
+        Fixture f;
+        if (!f.ok || !f.connectAttacker()) return 3;
+        for (auto op : { "open example.org", "auth1 PLAIN c:mallory:mpw", "deliver 0", "bind r", "bind r2", "close" })
+            printf("%-28s %s\n", op, applyOp(f, wordsOf(op)).str().c_str());
+        fflush(stdout);
+        f.victim->send(opXml({ "msg", "-", "mallory@example.org/r" }));
+        settle();
+        printf("victim -> mallory@example.org/r : server survived, victim received %s\n", joinOrDash(f.victim->take(f.cn)).toUtf8().constData());
+        return 0;
+    }
     const bool thorough = a.tier == "thorough";
     QElapsedTimer timer; timer.start();
 
@@ -750,6 +763,11 @@ int main(int argc, char **argv)
     const int depthFull = thorough ? 4 : 3, depthCompact = thorough ? 5 : 4;
     for (int d = 1; d <= depthFull; d++) enumerate({ "open example.org" }, full, d);
     enumerate({ "open example.org" }, compact, depthCompact);
+    // after a correct login (since repo commit 73b9a89 everything else ends at the first stanza)
+    const int depthAuthed = thorough ? 3 : 2;
+    enumerate({ "open example.org", "auth1 PLAIN c:mallory:mpw", "deliver 0" }, full, depthAuthed);
+    enumerate({ "open example.org", "auth2 PLAIN c:mallory:mpw b:", "deliver 0" }, compact, depthAuthed + 1);
+    stat("exhaustive_depth_after_login_full_alphabet", depthAuthed);
     stat("exhaustive_depth_full_alphabet", depthFull); stat("alphabet_full", (long long)full.size());
     stat("exhaustive_depth_compact_alphabet", depthCompact); stat("alphabet_compact", (long long)compact.size());
 
